@@ -368,7 +368,7 @@ func (l *RotateLogger) rotate() error {
 		backupFilename := l.getBackupFilename()
 		// 备份名在当前文件开始时就已确定且只精确到秒：启动后一秒内就轮换过时，下一个备份名与上一个相同。
 		// 同名备份已存在时改用此刻的名字，绝不覆盖已有备份（其中的记录会全部丢失）。
-		if _, statErr := os.Stat(backupFilename); statErr == nil {
+		if backupTaken(backupFilename) {
 			backupFilename = l.rule.BackupFilename()
 		}
 		err = os.Rename(l.filename, backupFilename)
@@ -387,6 +387,17 @@ func (l *RotateLogger) rotate() error {
 	}
 
 	return err
+}
+
+// backupTaken 报告备份名 name 是否已被占用：同名文件，或它压缩后的 .gz（压缩协程会把备份换成 .gz 并删掉原文件，
+// 只看原名会误以为名字空闲，随后的压缩会截断那个 .gz）。
+func backupTaken(name string) bool {
+	if _, err := os.Stat(name); err == nil {
+		return true
+	}
+
+	_, err := os.Stat(name + gzipExt)
+	return err == nil
 }
 
 func (l *RotateLogger) getBackupFilename() string {
